@@ -263,7 +263,7 @@ PROPS = {
                         "before that run'"],
         "level_text": "Theorems: C05_globs (for every pattern list and file set: p ∈ Globs ⇔ the last pattern matching p is positive; result strictly "
                       "sorted), C05_idem (both methods; also for a run whose only failures were swallowed by ignore_error: C05_ignored_failure_ok, F8C), "
-                      "C05_match_independent (whether a path is a source does not depend on other files: a field of a pattern that cannot be stat'ed is "
+                      "C05_idem_checksum_after_force (a forced run records the fingerprint like any other, F8F), C05_match_independent (whether a path is a source does not depend on other files: a field of a pattern that cannot be stat'ed is "
                       "skipped, F8E), C05_force, C05_missing_generates (both methods since TS1), C05_status_fails, C05_detect_full_inj (FULL "
                       "detection since fix F8B: the byte stream - names and contents back to back - together with the length table - the length of every "
                       "name and content, 8 bytes each, fed to a second hash - is an injective encoding of the list of (name, content), stream_lenTable_inj; "
@@ -599,9 +599,8 @@ FINDING_PREDICATES.update({
     # leave no mtime trace, invisible to the method by design (srcnewer=1 — a source IS newer and the run was skipped — stays a violation)
     "C05-timestamp-misses-non-mtime-changes": _c05(lambda m, f: f.get("kind") == "change-not-detected" and f.get("method") == "timestamp" and
                                                    f.get("srcnewer") == "0" and f.get("op") in ("removal", "rename", "addition", "edit", "mixed")),
-    # the run right after a successful --force run of the same task (nothing changed in between) executed the commands again: a
-    # forced run skips the fingerprint altogether, so it records none (first=run — after a NORMAL successful run — stays a violation)
-    "C05-force-records-no-fingerprint": _c05(lambda m, f: f.get("kind") == "not-idempotent" and f.get("first") == "force"),
+    # (the run right after a successful --force run executed the commands again, `not-idempotent … first=force`: FIXED by F8F, the
+    # forced run records the fingerprint; no predicate: a violation again)
     # (FIXED by TS1)
     "C05-timestamp-missing-generates": _c05(lambda m, f: f.get("kind") == "missing-generates-skipped" and f.get("method") == "timestamp"),
 })
